@@ -947,6 +947,35 @@ void set_destruct_object_limits (object_t * ob) {
 }
 
 /**
+ * Load the new copy of a vital object while the old copy \p ob (whose name
+ * has been blanked) is being destructed.  An error in the new copy's create()
+ * would leave that copy in the object table under the vital name, next to the
+ * old one: the error is caught here (it has been reported to the mudlib by
+ * then) and the half-loaded copy is destructed, so that the caller refuses the
+ * destruct like any other failed reload.
+ */
+static object_t *load_vital_copy (const char *name, object_t *ob) {
+  error_context_t econ;
+  object_t *volatile new_ob = NULL;
+  object_t *volatile stale = NULL;
+
+  if (!save_context (&econ))
+    return NULL;
+  if (!setjmp (econ.context))
+    new_ob = load_object (name, 0);
+  else
+    {
+      restore_context (&econ);
+      new_ob = NULL;
+      stale = lookup_object_hash (name);
+    }
+  pop_context (&econ);
+  if (stale && stale != ob && !(stale->flags & O_DESTRUCTED))
+    destruct_object (stale);
+  return new_ob;
+}
+
+/**
  * Remove an object. It is first moved into the \c ob_list_destruct linked
  * list, and not really deallocated until later. (see destruct2()).
  * @param ob The object to destruct.
@@ -1124,7 +1153,7 @@ void destruct_object (object_t * ob) {
               error ("*Destruction of vital object rejected due to invalid config setting (\"%s\").", vital_obj_name);
             }
           opt_trace (TT_EVAL|1, "reloading vital object: /%s", tmp);
-          new_ob = load_object (tmp, 0);
+          new_ob = load_vital_copy (tmp, ob);
           if (!new_ob)
             {
               ob->name = tmp;
